@@ -2492,10 +2492,9 @@ class Recipe:
                 if isinstance(dest, PlateSlicer):
                     dest = deepcopy(dest)
                     dest.plate = self.results[dest_name]
-                else:
-                    dest = self.results[dest_name]
-
-                self.results[dest_name] = dest.fill_to(solvent, quantity)
+                    self.results[dest_name] = dest.fill_to(solvent, quantity)
+                # (a container or a whole plate has been filled above; filling it again only adds rounding noise,
+                # which is refused when the target is the capacity)
                 step.substances_used.add(solvent)
                 step.to.append(self.results[dest_name])
 
